@@ -393,6 +393,43 @@ fn parent(id: &str, tier: &str) -> ! {
             all_unbounded = false;
         }
     }
+    if id == "C08" {
+        // sequential conformance of the same vector through the public facade (sibling binary):
+        // every push/extend history up to a depth bound incl. lying iterators against a content model
+        let e1 = common::verif_root().join("target").join("release").join("e1");
+        let e1 = std::env::var("VERIF_E1_BIN").map(std::path::PathBuf::from).unwrap_or(e1);
+        match std::process::Command::new(&e1).args(["c08-seq", tier]).output() {
+            Ok(out) if out.status.success() => {
+                let stdout = String::from_utf8_lossy(&out.stdout).to_string();
+                let v: Value = serde_json::from_str(stdout.lines().last().unwrap_or("")).unwrap_or(Value::Null);
+                let h = v["histories"].as_u64().unwrap_or(0);
+                if h == 0 {
+                    machinery_failure("sequential C08 child reported no histories");
+                }
+                rep.acc.evaluations += h;
+                rep.acc.states += h;
+                rep.acc.transitions += v["transitions"].as_u64().unwrap_or(0);
+                rep.acc.traces += h;
+                rep.acc.nontrivial += v["nontrivial"].as_u64().unwrap_or(0);
+                for s in v["samples"].as_array().cloned().unwrap_or_default() {
+                    rep.acc.sample(|| s.clone());
+                }
+                for vl in v["violations"].as_array().cloned().unwrap_or_default() {
+                    let sig = vl["sig"].as_str().unwrap_or("C08/seq/?").to_owned();
+                    let what = vl["what"].as_str().unwrap_or("").to_owned();
+                    for ex in vl["examples"].as_array().cloned().unwrap_or_default() {
+                        rep.acc.violation(&sig, &what, || ex);
+                    }
+                    if let Some(c) = rep.acc.violations.get_mut(&sig) {
+                        c.count = c.count.max(vl["count"].as_u64().unwrap_or(1));
+                    }
+                }
+                rep.extra("sequential_histories", json!(h));
+            }
+            Ok(out) => machinery_failure(&format!("sequential C08 child failed: {:?} {}", out.status, String::from_utf8_lossy(&out.stderr).chars().take(300).collect::<String>())),
+            Err(e) => machinery_failure(&format!("cannot run {}: {e}", e1.display())),
+        }
+    }
     rep.extra("bodies", json!(bodies_json));
     rep.exhaustive = all_unbounded;
     rep.bound = bodies
